@@ -1195,9 +1195,19 @@ func (c *EvalCtx) inlineCall(fo *types.Func, n *ast.CallExpr, rt types.Type) (st
 
 func (c *EvalCtx) ghostField(name, obj string) string {
 	vc := c.x.vc
-	srt := c.x.eng.ghostFieldSort(name)
-	k := vc.ghostHeapKey(name, fmt.Sprintf("(Array Int %s)", srt))
-	return fmt.Sprintf("(select %s %s)", vc.heapGet(c.state(), k), obj)
+	k := vc.ghostHeapKey(name, c.x.eng.ghostArrSort(vc, name))
+	t := fmt.Sprintf("(select %s %s)", vc.heapGet(c.state(), k), obj)
+	if len(c.bound) == 0 && vc.quiet == 0 {
+		for _, g := range c.x.eng.gfields {
+			if g.Name == name && g.sig != nil {
+				for _, f := range vc.typeFacts(t, g.sig.Results().At(0).Type(), "", 1) {
+					vc.assume("true", f)
+				}
+				break
+			}
+		}
+	}
+	return t
 }
 
 // ufAxioms instantiates declared axioms of an uninterpreted function.
